@@ -24,7 +24,7 @@ if [ -z "$skipsuite" ]; then
   # packages that listen on fixed ports (tests/*_scenario, acceptance) collide with other runs on this machine: retry them alone
   for try in 1 2 3; do
     [ $rc_suite -eq 0 ] && break
-    failed=$(grep '^FAIL[[:space:]]' "$cand/suite_with.log" | awk '{print $2}' | sort -u)
+    failed=$(grep '^FAIL[[:space:]]' "$cand/suite_with.log" | awk '{print $2}' | sort -u | tr '\n' ' ')
     [ -z "$failed" ] && break
     sleep $((RANDOM % 20))
     unshare -n sh -c "ip link set lo up && go test -vet=off -count=1 -timeout 15m $failed" > "$cand/suite_with.log" 2>&1; rc_suite=$?
